@@ -4,6 +4,7 @@ ProjectTo(in, cp) and proves that projection keeps validity; the real derive exp
 joint expansion must be exactly the impls of the projected input (the real code compared with itself)."""
 import collections
 import json
+import re
 
 import core
 import streams
@@ -12,10 +13,18 @@ from checks import c15
 LEVEL = "model_checking"
 
 
+HEADER = re.compile(r"(?:From|Into|IntoExisting) < (?:& (?:' ?o2o )?)?(\w+)")
+
+
 def impls_by_cp(run):
+    """impl items of one expansion, keyed by the counterpart named in the trait header.  Works on the flattened token stream (no parse needed),
+    so that an ill-formed impl for one counterpart does not hide the impls for the other."""
+    from checks.c10 import split_impls
     out = collections.defaultdict(collections.Counter)
-    for im, h in zip(run["proj"]["impls"], streams.impl_headers(run)):
-        out[h["cp"]][im["str"]] += 1
+    for imp in split_impls(run["toks"]):
+        text = " ".join(t[1] for t in imp)
+        m = HEADER.search(" ".join(t[1] for t in imp[:24]))
+        out[m.group(1) if m else "?"][text] += 1
     return out
 
 
@@ -27,21 +36,21 @@ def run(tier, seed):
     ctx.add_tlc(r)
     cases = [c for c in r.cases if not c["faults"]]
     inp = [{"id": i, "srcs": [c15.concretize(c["in"], True), c15.concretize(c["pa"], True), c15.concretize(c["pb"], True)]} for i, c in enumerate(cases)]
-    res = core.project(core.expand(inp, "syn1"))
+    res = core.expand(inp, "syn1", tokens=True)
     trace, detail, vd, skipped = [], {}, {}, {}
     for x, c, rr in zip(inp, cases, res):
         j, pa, pb = rr["runs"]
         for cp, pr, k in (("A", pa, 1), ("B", pb, 2)):
             rid = f"{x['id']}:{cp}"
             detail[rid] = (x["srcs"][0], x["srcs"][k], c["in"])
-            ok_all = all(q["verdict"] == "ok" and q["proj"]["parse"] == "ok" for q in (j, pr))
+            ok_all = all(q["verdict"] == "ok" for q in (j, pr))
             if ok_all:
                 jb = impls_by_cp(j).get(cp, collections.Counter())
                 pbag = sum(impls_by_cp(pr).values(), collections.Counter())
                 eq = jb == pbag
             else:
                 eq = False
-            v = lambda q: q["verdict"] if q["verdict"] != "ok" or q["proj"]["parse"] == "ok" else "unparseable"
+            v = lambda q: q["verdict"]
             vd[rid] = [v(j), v(pr), j.get("site", ""), (j.get("msgs") or [""])[-1][:100]]
             if "panic" in (v(j), v(pr)) or "unparseable" in (v(j), v(pr)):
                 skipped[v(j) if v(j) != "ok" else v(pr)] = skipped.get(v(j) if v(j) != "ok" else v(pr), 0) + 1
